@@ -22,6 +22,7 @@ ExplainsDispatch(e) ==
   THEN /\ e.st = "ok"
        /\ e.cls = e.fl
        /\ CASE e.op = "Marshal"     -> e.x1 = 1 /\ e.szok = 1 /\ e.stab = 1
+            [] e.op = "MarshalMutated" -> e.x1 = 1 /\ e.szok = 1 /\ e.same = 1 /\ e.stab = 1   \* sized before, nested message changed, marshaled again
             [] e.op = "Unmarshal"   -> e.x2 = 1
             [] e.op = "Size"        -> e.szok = 1
             [] e.op = "GrpcMarshal" -> e.same = 1 /\ e.stab = 1
